@@ -55,6 +55,12 @@ CHECKS = {
     'C11': dict(engine='jrnlens', technique='TLA+ spec IggyJournal (appliers, loader predicate, tamper operators; Serialized design model-checked, original design refuted as negative control) + TLC-judged forced schedules / injected failures on the real FileState and an exhaustive byte-level tamper sweep on real journal files',
                 text='Design: TLC checks AlwaysLoadable for 3 appliers and 2 failed appends and TamperEvident for journals of 1-5 entries. Code: every order of 2-3 concurrent FileState::apply calls is forced through the guarded schedule point, with every set of failing appends (guarded fault switch); the real loader must then load consecutive indices containing every acknowledged command, also after one more command. Tamper: every byte x {bit flips, 0x00, 0xFF}, every truncation, every entry removal/duplication/swap of real plain and encrypted journals; the loader must answer an error, or a prefix only when a whole suffix was lost; never a different history, never a panic.',
                 ref='3.6, 7/C11'),
+    'C13': dict(engine='wirelens', technique='TLA+ spec IggyWire (garbage-frame isolation) + TLC-validated SDK-encode/server-decode round trips of every command type with structure-aware boundary values, garbage frames on raw sockets, and the catalogue lens end to end over TCP and HTTP/JSON',
+                text='Agreement is decided where a specification can decide it: (1) every request type the SDK builds, with seeded boundary values, is decoded by the server\'s own decoder to an equal request with the same validity (TLC judges each recorded round trip); (2) malformed frames on one raw connection while a second connection works: error or closed, state and the other connection untouched; (3) responses and HTTP/JSON: every catalogue scenario (names of 1..255 bytes, by id / by name) over both transports must make the SDK-decoded answers equal the specification relations. Fidelity over ALL values is sampled, not exhaustive.',
+                ref='3.8, 7/C13'),
+    'C19': dict(engine='loglens', technique='the data-path and catalogue specifications (IggyLog, IggyCatalogue) with the encryption bit on + TLC trace validation + plaintext scan of every file as an observed variable + restart with a different key',
+                text='Same scenarios as C01-C03/C05 with encryption on: every sweep must still equal the specification (lossless), no payload marker / journalled name may be found in clear in any file after any step, the journal must be replayable after restart with the same key, and after a restart with another key the server must refuse to start or answer errors - never hand out a message.',
+                ref='7/C19'),
 }
 
 def main():
@@ -85,7 +91,9 @@ def main():
                  dict(name='permlens', path='lib/permlens.py + harness/src/perm_lens.rs + specs/IggyPerm.tla, MC_IggyPerm.tla, Trace_IggyPerm.tla',
                       serves_properties=['C09'], kind_free_text='TLC-validated decision table / sweeps against the documented permission hierarchy'),
                  dict(name='jrnlens', path='lib/jrnlens.py + harness/src/jrn_lens.rs + specs/IggyJournal.tla, MC_IggyJournal.tla, Trace_IggyJournal.tla',
-                      serves_properties=['C11'], kind_free_text='journal appliers under forced schedules/faults (hooks H4/H5) and byte-level tamper sweep')],
+                      serves_properties=['C11'], kind_free_text='journal appliers under forced schedules/faults (hooks H4/H5) and byte-level tamper sweep'),
+                 dict(name='wirelens', path='lib/wirelens.py + harness/src/wire_lens.rs + specs/IggyWire.tla, Trace_IggyWire.tla',
+                      serves_properties=['C13'], kind_free_text='request round trips through the server decoder (hook H7), garbage frames')],
         checks=[],
         notes='See DESIGN.md. Exit codes: 0 held, 1 + VIOLATION line, 2 tool error. known-findings.json lists fixed and open findings.',
         not_applicable=[],
